@@ -217,3 +217,23 @@ func TestEdGroupLaw(t *testing.T) {
 		t.Error("base point not on curve")
 	}
 }
+
+// SecretboxPrefixes must agree with SecretboxSeal on every prefix (including the empty one,
+// lengths around the 16-byte Poly1305 block and the 32/64-byte Salsa20 boundaries).
+func TestSecretboxPrefixes(t *testing.T) {
+	msg := make([]byte, 5000)
+	for i := range msg {
+		msg[i] = byte(i*13 + i>>8)
+	}
+	key, nonce := a32(firstKey), a24(nonceHex)
+	lens := []int{4999, 0, 1, 15, 16, 17, 31, 32, 33, 47, 48, 63, 64, 65, 1000, 4096, 5000, 16}
+	c, tags := SecretboxPrefixes(msg, nonce, key, lens)
+	for _, n := range lens {
+		want := SecretboxSeal(msg[:n], nonce, key)
+		tg := tags[n]
+		got := append(tg[:], c[:n]...)
+		if !bytes.Equal(got, want) {
+			t.Errorf("prefix %d: SecretboxPrefixes != SecretboxSeal", n)
+		}
+	}
+}
